@@ -10,4 +10,7 @@ def run(ctx):
                 "non-increasing offsets / indices, overlapping blocks, offset past the end, mismatched lengths) and zero-length "
                 "writes; a byte-level hash of the whole channel directory and the writer getters are taken around every "
                 "rejected call; final files are hashed after every later call",
-           bad_rate=0.35, empty_rate=0.08, observe_pairs=10, nvec=2, capi_every=2)
+           bad_rate=0.35, empty_rate=0.08, observe_pairs=10, nvec=2, capi_every=2,
+           # a later session that runs into a period finalized earlier (also from a hole between two finalized files):
+           # refused, nothing changed, and the finalized files keep their bytes
+           extra=lambda c, drf: cc.refusal_histories(c, drf, c.pick(12, 200)))
